@@ -192,7 +192,7 @@ def scenario_requester_becomes_leader(repo, seed, n_first=2, n_local=1, batch=Tr
     return sim, viols, None if waiting else "the follower was not waiting for any position"
 
 
-def scenario_snapshot_over_waiting(repo, seed, extra=0, observer=False):
+def scenario_snapshot_over_waiting(repo, seed, extra=0, observer=False, raising=False):
     """A node forwards a command, is told its log position i by the leader (it now waits for i to commit), loses the
     entries, and is caught up by a SNAPSHOT whose last index is i + extra (extra = 0: exactly i).  Its callback must be
     answered (once): the node never applies position i itself."""
@@ -220,6 +220,13 @@ def scenario_snapshot_over_waiting(repo, seed, extra=0, observer=False):
     sim.connect(F, L)
     cid = sim.submit(F, "fwd")
     sim.tick(F, 0.0)
+    if raising:                           # the application's callback fails AFTER it has taken note of the outcome
+        waiting = getattr(sim.objs[F], "_SyncObj__commandsWaitingReply")
+        for rid, cb0 in list(waiting.items()):
+            def cb1(res, err, cb0=cb0):
+                cb0(res, err)
+                raise RuntimeError("callback of the application failed")
+            waiting[rid] = cb1
     while sim.deliver(F, L):
         pass
     sim.tick(L, 0.0)                      # L appends it at index i and answers with i
